@@ -132,6 +132,16 @@ def check(ctx, rep):
     from .c02 import dispatch_rule
     dispatch_rule(ctx, rep)
     flatten_rule(ctx, rep)
+    # "never dropped": every exit of a layer's completion callback has passed the outcome on -- resolved the derived
+    # future, queued it for the worker or re-pointed it -- and none leaves by exception (shared with C03)
+    from . import c03
+    from ..core import Report
+    sub = Report(rep.pid, ctx)
+    c03.check(ctx, sub)
+    rep.rule("R-CB-TOTAL", sub.rules.get("R-CB-TOTAL", ""))
+    for o in sub.obs:
+        if o.rule == "R-CB-TOTAL":
+            rep.ob("R-CB-TOTAL", o.key, o.ok, o.detail, o.where, o.trace)
 
 
 def _inline_policy(ci, records=()):
